@@ -27,6 +27,8 @@ import ICal.Lemmas.Encode
 import ICal.Props.C01
 import ICal.Lemmas.BodiesAdd
 import ICal.Lemmas.BodiesDDDLists
+import ICal.Lemmas.BodiesDDDInit
+import ICal.Lemmas.BodiesPeriodInit
 namespace ICal.C02
 open ICal.Enc
 
@@ -468,5 +470,23 @@ theorem body_vDDDLists_init_many (xs : List PyVal) :
 theorem body_vDDDLists_init_one (v : PyVal) :
     Bodies.dddListsInitP (.one v) = Bodies.liftEnc ((Enc.mapRes mkDDD [v]).map (fun vs => (listParams vs, vs))) :=
   Bodies.ddd_lists_init_one v
+
+/-- the regenerated `vDDDTypes.__init__` derives the model's `atomParams` for one object (VALUE=DATE / TIME, the TZID of a
+    datetime unless it is UTC) -/
+theorem body_vDDDTypes_init_atom (tz : PyRT.PyDDD → Option Str) (a : PyAtom) (h : Bodies.TzOfAtom tz a) :
+    Bodies.dddInitParamsP tz (Bodies.atomObjE a) = atomParams a := Bodies.ddd_init_atom tz a h
+
+/-- and `periodParamsDDD` for a pair: VALUE=PERIOD and the zone of a datetime START -/
+theorem body_vDDDTypes_init_period (tz : PyRT.PyDDD → Option Str) (a b : PyAtom) (h : Bodies.TzOfAtom tz a) :
+    Bodies.dddInitParamsP tz (.period (Bodies.atomObjE a) (Bodies.atomObjE b)) = periodParamsDDD a :=
+  Bodies.ddd_init_period tz a b h
+
+/-- the regenerated `vPeriod.__init__((a, b))` accepts the pair exactly when the model's `periodText` does (a start STRICTLY
+    after the end, mixed kinds and a TypeError / OverflowError inside all end as ValueError) and derives `periodParamsV` -/
+theorem body_vPeriod_init (a b : PyAtom) :
+    Bodies.periodInitParamsP a b =
+      (match Enc.periodText a b with
+       | some _ => .ok (periodParamsV a)
+       | none => .error .valueError) := Bodies.period_init_eq a b
 
 end ICal.C02
